@@ -86,6 +86,16 @@ def gen_cases(tier, seed):
             i += 1
             yield {'family': 'row_func_raises', 'workers': w, 'pred': pred, 'n': 60, 'idx': i, 'seed': seed, 'rep': 0,
                    'layout': 'single', 'yield_injection': False}
+    # the row function RETURNS something (a flag, a count): what is delivered is still the row
+    for w in (1, 2):
+        i += 1
+        yield {'family': 'row_func_returns_value', 'workers': w, 'pred': 'every_3rd', 'n': 17, 'idx': i, 'seed': seed, 'rep': 0,
+               'layout': 'single', 'yield_injection': False}
+    # two parallelize steps over the same resource in one flow (the second pool starts while the first is still busy)
+    for w in (1, 2):
+        i += 1
+        yield {'family': 'two_parallelize_steps', 'workers': w, 'pred': 'none', 'n': 40, 'idx': i, 'seed': seed, 'rep': 0,
+               'layout': 'single', 'yield_injection': False}
     # the row function starts a child process of its own (a nested pool / Process / subprocess helper)
     for w in (1, 2):
         i += 1
@@ -167,6 +177,8 @@ def child_main(case, logpath, outpath):
             raise ValueError('row function cannot handle row %r' % row.get('id'))
         row['_applied'] = row.get('_applied', 0) + 1
         row['_pid'] = os.getpid()
+        if case['family'] == 'row_func_returns_value':
+            return [True, 3, 'done'][row.get('id', 0) % 3]
 
     def rows_a():
         for i in range(n):
@@ -195,6 +207,11 @@ def child_main(case, logpath, outpath):
     if case['family'] == 'after_sort':
         steps.append(d.sort_rows('{id}'))
     steps.append(d.parallelize(row_func, num_processors=w, resources=sel, predicate=pred))
+    if case['family'] == 'two_parallelize_steps':
+        def second(row):
+            time.sleep(0.002)
+            row['v'] = row['v'] + '+2nd'
+        steps.append(d.parallelize(second, num_processors=w, resources=sel))
     t0 = time.time()
     res = {'returned': False}
     try:
@@ -273,6 +290,18 @@ def run_case(case):
         elif now - last_change > QUIET_S + case.get('pause_s', 0):
             ev = schedlab.read_log(logpath)
             alive, blocked = schedlab.blocked_actors(ev)
+            # an actor whose process is gone (killed, zombie) does nothing any more: only the living ones count
+
+            def living(pid_):
+                try:
+                    with open('/proc/%d/stat' % pid_) as f_:
+                        return f_.read().rsplit(')', 1)[1].split()[0] not in ('Z', 'X')
+                except OSError:
+                    return False
+            dead_ = {k_ for k_ in alive if not living(k_[0])}
+            if dead_ and len(dead_) < len(alive):
+                alive = {k_: v_ for k_, v_ in alive.items() if k_ not in dead_}
+                blocked = {k_: v_ for k_, v_ in blocked.items() if k_ not in dead_}
             groups = {e['q'] for e in ev if e['q'].startswith('q_in#')}
             started = sum(1 for e in ev if e['op'] == 'start' and e['q'].startswith('proc#'))
             # a worker that has not logged its start yet (slow fork on a loaded machine) is not "blocked"
@@ -336,6 +365,10 @@ def run_case(case):
         rows_out = got.get(name, [])
         counters['rows_delivered'] += len(rows_out)
         ids_in = sorted(r['id'] for r in rows_in)
+        junk = [r for r in rows_out if not isinstance(r, dict)]
+        if junk:
+            add('exactly_once', 'resource %s: %d of the delivered items are not rows: %r' % (name, len(junk), junk[:3]))
+            continue
         ids_out = sorted(r['id'] for r in rows_out)
         if ids_in != ids_out:
             lost = sorted(set(ids_in) - set(ids_out))[:6]
@@ -344,6 +377,11 @@ def run_case(case):
                 % (name, lost, dup, len(ids_in), len(ids_out)))
             continue
         for r in rows_out:
+            if case['family'] == 'two_parallelize_steps' and name in par:
+                if r.get('_applied') != 1 or r.get('v') != 'a%d+2nd' % r['id']:
+                    add('applied_once', 'row %r delivered as %r after two parallelize steps' % (r['id'], r))
+                    break
+                continue
             if name in par and r['id'] in selected:
                 if case['family'] == 'row_func_raises' and r['id'] % 7 == 0:
                     continue        # (delivered - judged above; the function gave up on it before touching it)
